@@ -3,6 +3,6 @@
 tier=${1:-quick}
 cd "$(dirname "$0")/.."
 for p in C01 C02 C03 C04 C05 C06 C07 C08 C09 C10 C11 C12 C13 C14 C15 C16 C17 C18 C19 C20; do
-  ./check $p --tier $tier > /tmp/runall-$p.log 2>&1; rc=$?
-  echo "rc=$rc $(grep -E "tier=" /tmp/runall-$p.log | tail -1 | cut -c1-160) $(grep -c -E '^DRIFT' /tmp/runall-$p.log) drift $(grep -c -E '^KNOWN' /tmp/runall-$p.log) known"
+  ./check $p --tier $tier > /tmp/runall-$tier-$p.log 2>&1; rc=$?
+  echo "rc=$rc $(grep -E "tier=" /tmp/runall-$tier-$p.log | tail -1 | cut -c1-160) $(grep -c -E '^DRIFT' /tmp/runall-$tier-$p.log) drift $(grep -c -E '^KNOWN' /tmp/runall-$tier-$p.log) known"
 done
